@@ -279,7 +279,9 @@ func (sf *IteratorDatastore) ReadStartingWithUser(
 
 	// The producer function is called to create a new shared iterator when it is first accessed.
 	newStorageItem.producer = func() (*sharedIterator, error) {
-		it, err := sf.RelationshipTupleReader.ReadStartingWithUser(ctx, store, filter, options)
+		// The iterator (and an error from creating it) is handed to every request sharing this item,
+		// so it must not depend on the cancellation of the request that happens to create it.
+		it, err := sf.RelationshipTupleReader.ReadStartingWithUser(context.WithoutCancel(ctx), store, filter, options)
 		if err != nil {
 			return nil, err
 		}
@@ -360,7 +362,9 @@ func (sf *IteratorDatastore) ReadUsersetTuples(
 
 	// The producer function is called to create a new shared iterator when it is first accessed.
 	newStorageItem.producer = func() (*sharedIterator, error) {
-		it, err := sf.RelationshipTupleReader.ReadUsersetTuples(ctx, store, filter, options)
+		// The iterator (and an error from creating it) is handed to every request sharing this item,
+		// so it must not depend on the cancellation of the request that happens to create it.
+		it, err := sf.RelationshipTupleReader.ReadUsersetTuples(context.WithoutCancel(ctx), store, filter, options)
 		if err != nil {
 			return nil, err
 		}
@@ -439,7 +443,9 @@ func (sf *IteratorDatastore) Read(
 
 	// The producer function is called to create a new shared iterator when it is first accessed.
 	newStorageItem.producer = func() (*sharedIterator, error) {
-		it, err := sf.RelationshipTupleReader.Read(ctx, store, filter, options)
+		// The iterator (and an error from creating it) is handed to every request sharing this item,
+		// so it must not depend on the cancellation of the request that happens to create it.
+		it, err := sf.RelationshipTupleReader.Read(context.WithoutCancel(ctx), store, filter, options)
 		if err != nil {
 			return nil, err
 		}
